@@ -1130,20 +1130,28 @@ func checkSlotNormalisation(c *core.Ctx, rule9, rule10 string) {
 				if !ok {
 					return true
 				}
-				se, ok := call.Fun.(*ast.SelectorExpr)
-				if !ok {
-					return true
-				}
-				rt := info.Types[se.X].Type
-				if rt == nil {
-					return true
-				}
-				rs := rt.String()
 				idx := -1
 				what := ""
+				if isHost, si := hostBodyCall(info, call); isHost && si >= 0 {
+					idx, what = si, "stack passed to the host function"
+				}
+				se, ok := call.Fun.(*ast.SelectorExpr)
+				if !ok {
+					if idx < 0 {
+						return true
+					}
+					se = &ast.SelectorExpr{X: call.Fun, Sel: ast.NewIdent("")}
+				}
+				rt := info.Types[se.X].Type
+				if rt == nil && idx < 0 {
+					return true
+				}
+				rs := ""
+				if rt != nil {
+					rs = rt.String()
+				}
 				switch {
-				case se.Sel.Name == "Call" && (strings.HasSuffix(rs, "api.GoFunction") || strings.HasSuffix(rs, "api.GoModuleFunction")):
-					idx, what = len(call.Args)-1, "stack passed to the host function"
+				case idx >= 0:
 				case se.Sel.Name == "Before" && strings.Contains(rs, "FunctionListener"):
 					idx, what = 3, "parameters shown to the listener"
 				case se.Sel.Name == "After" && strings.Contains(rs, "FunctionListener") && label == "ExitCodeCallListenerAfter":
@@ -1195,10 +1203,8 @@ func checkSlotNormalisation(c *core.Ctx, rule9, rule10 string) {
 		var hostCall token.Pos
 		ast.Inspect(cc, func(x ast.Node) bool {
 			if call, ok := x.(*ast.CallExpr); ok {
-				if se, ok := call.Fun.(*ast.SelectorExpr); ok && se.Sel.Name == "Call" {
-					if rt := info.Types[se.X].Type; rt != nil && (strings.HasSuffix(rt.String(), "api.GoFunction") || strings.HasSuffix(rt.String(), "api.GoModuleFunction")) {
-						hostCall = call.End()
-					}
+				if isHost, _ := hostBodyCall(info, call); isHost {
+					hostCall = call.End()
 				}
 			}
 			return true
